@@ -5,12 +5,78 @@ package suggest
 import (
 	"context"
 
+	"deps.dev/util/maven"
 	"deps.dev/util/resolve"
 	"deps.dev/util/resolve/dep"
 	"deps.dev/util/semver"
+	"github.com/google/osv-scalibr/guidedremediation/internal/manifest"
+	mavenmanifest "github.com/google/osv-scalibr/guidedremediation/internal/manifest/maven"
+	"github.com/google/osv-scalibr/guidedremediation/options"
 	"github.com/google/osv-scalibr/guidedremediation/upgrade"
 	"github.com/google/osv-scalibr/internal/verifrt"
 )
+
+// verifManifest is a Maven manifest given directly by its requirements.
+type verifManifest struct {
+	reqs     []resolve.RequirementVersion
+	specific mavenmanifest.ManifestSpecific
+}
+
+func (m *verifManifest) FilePath() string                           { return "pom.xml" }
+func (m *verifManifest) Root() resolve.Version                      { return resolve.Version{} }
+func (m *verifManifest) System() resolve.System                     { return resolve.Maven }
+func (m *verifManifest) Requirements() []resolve.RequirementVersion { return m.reqs }
+func (m *verifManifest) Groups() map[manifest.RequirementKey][]string {
+	return map[manifest.RequirementKey][]string{}
+}
+func (m *verifManifest) LocalManifests() []manifest.Manifest               { return nil }
+func (m *verifManifest) EcosystemSpecific() any                            { return m.specific }
+func (m *verifManifest) PatchRequirement(resolve.RequirementVersion) error { return nil }
+func (m *verifManifest) Clone() manifest.Manifest                          { return m }
+
+// VerifSuggestAll: the whole bulk-update step (MavenSuggester.Suggest) on a manifest that requires
+// one package twice at different versions (dependencies and a profile, say) and a second package
+// configured as not upgradable: every proposed update moves its own requirement upward within
+// the level, and the not-upgradable package is untouched.
+func VerifSuggestAll() {
+	maxDigit := verifrt.Param("max_digit")
+	n := verifrt.Param("versions")
+	var universe []string
+	for i := 0; i < n; i++ {
+		universe = append(universe, verifVer("version", maxDigit))
+	}
+	level := upgrade.Level(verifrt.Choice("level", 3))
+	mk := func(name, v string) resolve.RequirementVersion {
+		return resolve.RequirementVersion{
+			VersionKey: resolve.VersionKey{PackageKey: resolve.PackageKey{System: resolve.Maven, Name: name}, VersionType: resolve.Requirement, Version: v},
+			Type:       dep.NewType(),
+		}
+	}
+	mf := &verifManifest{reqs: []resolve.RequirementVersion{mk("g:a", universe[0]), mk("g:a", universe[1]), mk("g:frozen", universe[0])}}
+	mf.specific.OriginalRequirements = []mavenmanifest.DependencyWithOrigin{
+		{Dependency: maven.Dependency{GroupID: "g", ArtifactID: "a", Version: maven.String(universe[0])}},
+		{Dependency: maven.Dependency{GroupID: "g", ArtifactID: "frozen", Version: maven.String(universe[0])}},
+	}
+	cfg := upgrade.NewConfig()
+	cfg.SetDefault(level)
+	cfg.Set("g:frozen", upgrade.None)
+	patch, err := (&MavenSuggester{}).Suggest(context.Background(), mf, options.UpdateOptions{ResolveClient: verifClient{universe}, UpgradeConfig: cfg})
+	verifrt.Assert(err == nil, "a bulk update is computed")
+	if err != nil {
+		return
+	}
+	verifrt.Reach("suggested")
+	for _, pu := range patch.PackageUpdates {
+		verifrt.Assert(pu.Name != "g:frozen", "a package configured as not upgradable is never touched")
+		c := semver.Maven.Compare(pu.VersionTo, pu.VersionFrom)
+		verifrt.Assert(c > 0, "a bulk update moves a requirement strictly upward from its own version")
+		if c > 0 {
+			verifrt.Reach("upgraded")
+			_, diff, derr := semver.Maven.Difference(pu.VersionFrom, pu.VersionTo)
+			verifrt.Assert(derr == nil && level.Allows(diff), "the update stays within the configured level")
+		}
+	}
+}
 
 type verifClient struct{ versions []string }
 
